@@ -178,6 +178,21 @@ func (c *Ctx) Bin(op string, a, b *Term) *Term {
 			return c.Const(w, v)
 		}
 	}
+	if op == "bvadd" && w > 0 && !(a.IsConst() && b.IsConst()) {
+		// operands whose possibly-set bits are disjoint: the sum is the bitwise or (no carries)
+		za, _ := c.Known(a)
+		zb, _ := c.Known(b)
+		if (^za&Mask(w))&(^zb&Mask(w)) == 0 && (a.IsConst() || b.IsConst()) && za != 0 && zb != 0 {
+			return c.Bin("bvor", a, b)
+		}
+	}
+	if op == "bvand" && b.IsConst() && a.Op == "bvor" && a.Args[1].IsConst() {
+		// (x | c1) & c2 = (x & c2) | (c1 & c2)
+		return c.Bin("bvor", c.Bin("bvand", a.Args[0], b), c.Const(w, a.Args[1].Val&b.Val))
+	}
+	if op == "bvand" && a.IsConst() && b.Op == "bvor" && b.Args[1].IsConst() {
+		return c.Bin("bvor", c.Bin("bvand", b.Args[0], a), c.Const(w, b.Args[1].Val&a.Val))
+	}
 	switch op {
 	case "bvadd":
 		if a.IsConst() && !b.IsConst() {
